@@ -1620,6 +1620,7 @@ def c_rc_make_mut(m, st, f, a):
 @contract(r'^(Rc|Arc)::<.*>::(ptr_eq)$', 3)
 def c_rc_ptr_eq(m, st, f, a):
     x, y = deref(a[0]), deref(a[1])
+    if not (isinstance(x, Ref) and isinstance(y, Ref)): x, y = a[0], a[1]
     return x.cell is y.cell and x.path == y.path
 
 
